@@ -29,7 +29,7 @@ var verdicts = []string{"ValidationAccept", "ValidationReject", "ValidationIgnor
 
 func init() {
 	register(&Property{ID: "C04", Run: runC04,
-		Explain: "Verdict logic decided by value-set propagation over the four-value verdict enum (T5) plus dominance: (R04.1) validateMsg returns only Accept/Reject/Ignore (out-of-range -> Ignore); (R04.2) in validate the value set of the inline result is {Accept} at onValid, within {Accept,Ignore} at the asynchronous hand-off, Reject leads to RejectMessage(RejectValidationFailed)+error, Ignore without async validators to RejectValidationIgnored+error; (R04.3) validateTopic combines verdicts monotonically in the order Accept<Ignore<Throttled<Reject (every assignment `result=C` happens where the current set is below C and in the arm of the received verdict C), which makes the outcome independent of completion order, and the collecting loop is left early only where the combined verdict is already {Reject} (no later verdict can be lost); (R04.4) doValidateTopic calls onValid only with result in {Accept} even when the inline stage said Ignore, and each non-accept arm reports the matching reason; (R04.5) peerScore.RejectMessage never reaches markInvalidMessageDelivery for throttled/ignored/queue-full/blacklist reasons and always penalises the forwarder (and every recorded duplicate sender) for RejectValidationFailed; (R04.7) the validator list attached to a queued message is a private copy (no append through an alias of the shared default list); (R04.6) local publishing validates synchronously (all validators inline) and surfaces the pipeline's error. NOT decided: validator timeouts, purity of user validators.",
+		Explain: "Verdict logic decided by value-set propagation over the four-value verdict enum (T5) plus dominance: (R04.1) validateMsg returns only Accept/Reject/Ignore (out-of-range -> Ignore); (R04.2) in validate the value set of the inline result is {Accept} at onValid, within {Accept,Ignore} at the asynchronous hand-off, Reject leads to RejectMessage(RejectValidationFailed)+error, Ignore without async validators to RejectValidationIgnored+error; (R04.3) validateTopic combines verdicts monotonically in the order Accept<Ignore<Throttled<Reject (every assignment `result=C` happens where the current set is below C and in the arm of the received verdict C), which makes the outcome independent of completion order, and the collecting loop is left early only where the combined verdict is already {Reject} (no later verdict can be lost); (R04.4) doValidateTopic calls onValid only with result in {Accept} even when the inline stage said Ignore, and each non-accept arm reports the matching reason; (R04.5) peerScore.RejectMessage never reaches markInvalidMessageDelivery for throttled/ignored/queue-full/blacklist reasons and always penalises the forwarder (and every recorded duplicate sender) for RejectValidationFailed; (R04.7) the validator list attached to a queued message is a private copy (no append through an alias of the shared default list); (R04.6) local publishing validates synchronously (all validators inline) and surfaces the pipeline's error. The promise tracker's per-reason rows (C17 PROM) are re-evaluated here: a throttled or ignored message penalises nobody through broken promises either. NOT decided: validator timeouts, purity of user validators.",
 		Assume:  []string{"user validators return a ValidationResult (any int value)", "go/cfg fallthrough edges are modelled by x/tools"},
 		Mutants: []Mutant{
 			{Name: "validateMsg-unknown-passthrough", File: "validation.go", Old: "\t\tval.logger.Warn(\"Unexpected result from validator; ignoring message\", \"result\", r)\n\t\treturn ValidationIgnore", New: "\t\tval.logger.Warn(\"Unexpected result from validator; ignoring message\", \"result\", r)\n\t\treturn r", Expect: "R04.1"},
